@@ -238,7 +238,10 @@ Render(doc, i, C, fuel) ==
                                 !.inst = C.inst * 31 + i]
             IN IF ti = 0 THEN <<>> ELSE Render(doc, ti, C2, fuel - 1)
        [] nd.tag = "svg" ->
-            LET x == nd.g[1]  y == nd.g[2]  w == nd.g[3]  h == nd.g[4]
+            LET x == nd.g[1]  y == nd.g[2]
+                \* width/height default to 100% of the enclosing viewport (in its user units)
+                w == IF nd.g[3] < 0 THEN C.vp[1] ELSE nd.g[3]
+                h == IF nd.g[4] < 0 THEN C.vp[2] ELSE nd.g[4]
                 vb == nd.g[5]  par == nd.g[6]  ovf == nd.g[7]
                 align == IF par = <<>> THEN "xMidYMid" ELSE par[1]
                 slice == Len(par) = 2 /\ par[2] = "slice"
@@ -250,13 +253,15 @@ Render(doc, i, C, fuel) ==
                                      rule |-> "nonzero"] >> >>
                 C2 == [C EXCEPT !.m = Mul(mt, vx), !.ctx = Inherit(C.ctx, at),
                                 !.grp = GroupE(C, <<i, C.inst>>, e),
-                                !.clips = C.clips \o clipU]
+                                !.clips = C.clips \o clipU,
+                                !.vp = IF vb = <<>> THEN <<w, h>> ELSE <<vb[3], vb[4]>>]
             IN RenderSeq(doc, Children(doc, i), 1, C2, fuel, <<>>)
        [] OTHER -> <<>>
 
 Layers(doc) ==
   RenderSeq(doc, Children(doc, 0), 1,
-            [m |-> Id, ctx |-> Inherit(DefaultCtx, doc.root), grp |-> <<>>, clips |-> <<>>, inst |-> 0],
+            [m |-> Id, ctx |-> Inherit(DefaultCtx, doc.root), grp |-> <<>>, clips |-> <<>>, inst |-> 0,
+             vp |-> <<doc.vb[3], doc.vb[4]>>],
             6, <<>>)
 
 (* ---------------------------------------------------------------- stacks *)
